@@ -8,6 +8,7 @@ pub mod disjoint;
 pub mod entryeq;
 pub mod eqclone;
 pub mod fam;
+pub mod liar;
 pub mod full;
 pub mod maphist;
 pub mod model;
